@@ -45,10 +45,15 @@ static ldc hval(int v, int i, int j, int n) {
     case 0: return i == j ? (ld)(2 * n + 1 + i % 3) : generic_value(i, j, 3) / 4;
     case 1: return generic_value(i, j, 1);
     case 2: return i == j ? (i == n / 2 ? (ld)1e-3 : (ld)(2 * n + 1 + i % 3)) : generic_value(i, j, 3) / 4;
-    default: return generic_value(i, j, 1) * (ld)1.5;
+    case 3: return generic_value(i, j, 1) * (ld)1.5;
+    default: return generic_value(i, j, 1);       /* set 4: see build() */
     }
 }
-static void build(int p, int v, tmat_t *T) { int n = pat_n(p); int pat[NMAX][NMAX]; ldc D[NMAX][NMAX]; for (int i = 0; i < n; i++) for (int j = 0; j < n; j++) { pat[i][j] = pat_bit(p, i, j); D[i][j] = S2L(L2S(hval(v, i, j, n))); } tm_from_dense(T, n, n, pat, D); }
+/* value set 4 (added after seeded change C08/3 was missed): set 1, but in every column the diagonal entry is given EXACTLY the magnitude of the
+   column's largest entry: the pivot of set 1 (the largest entry) then ties with the diagonal, i.e. it passes the threshold u = 1 exactly, and a
+   refactorization that reuses the row order must keep it although threshold pivoting on its own would prefer the diagonal */
+static void build(int p, int v, tmat_t *T) { int n = pat_n(p); int pat[NMAX][NMAX]; ldc D[NMAX][NMAX]; for (int i = 0; i < n; i++) for (int j = 0; j < n; j++) { pat[i][j] = pat_bit(p, i, j); D[i][j] = S2L(L2S(hval(v, i, j, n))); }
+    if (v == 4) for (int j = 0; j < n; j++) { ld mx = 0; for (int i = 0; i < n; i++) if (pat[i][j] && i != j && ABSL(D[i][j]) > mx) mx = ABSL(D[i][j]); if (pat[j][j] && mx > 0) D[j][j] = (creall(D[j][j]) < 0 ? -mx : mx); } tm_from_dense(T, n, n, pat, D); }
 
 /* ------------------------------------------------------------------ live objects of one history */
 typedef struct {
@@ -156,9 +161,9 @@ static void hs_end(hs_t *s) {
 /* op codes: F<v><P>  R<v><u><P>  S<t>  D     v in 0..3, P in {a=1 thread, b=2 threads}, u in {y,n}, t in {n,t,c} */
 typedef struct { char kind; int v, usepr, P, trans; } op_t;
 static int alphabet(op_t *a, int full) {
-    int k = 0; int nv = full ? 4 : 3;
-    for (int v = 0; v < nv; v++) for (int P = 1; P <= 2; P++) { a[k].kind = 'F'; a[k].v = v; a[k].P = P; k++; }
-    for (int v = 0; v < nv; v++) for (int u = 0; u < 2; u++) for (int P = 1; P <= 2; P++) { if (!full && P == 2 && v == 3) continue; a[k].kind = 'R'; a[k].v = v; a[k].usepr = u; a[k].P = P; k++; }
+    int k = 0; static const int VQ[4] = { 0, 1, 2, 4 }, VF[5] = { 0, 1, 2, 3, 4 }; int nv = full ? 5 : 4; const int *vs = full ? VF : VQ;
+    for (int vi = 0; vi < nv; vi++) for (int P = 1; P <= 2; P++) { int v = vs[vi]; a[k].kind = 'F'; a[k].v = v; a[k].P = P; k++; }
+    for (int vi = 0; vi < nv; vi++) for (int u = 0; u < 2; u++) for (int P = 1; P <= 2; P++) { int v = vs[vi]; if (!full && P == 2 && v == 4) continue; a[k].kind = 'R'; a[k].v = v; a[k].usepr = u; a[k].P = P; k++; }
     for (int t = 0; t < (IS_COMPLEX ? 3 : 2); t++) { a[k].kind = 'S'; a[k].trans = t; k++; }
     a[k].kind = 'D'; k++;
     return k;
